@@ -1,5 +1,5 @@
 """C16 - self-describing encodings decode faithfully without a schema."""
-from harness import core, codec, universe as U, implrun as I, gen
+from harness import core, codec, universe as U, implrun as I, gen, x690gen
 from harness.coqio import cbytes
 from harness.gen import base_desc, outer_tags
 from pyasn1.type import univ, base, char, useful
@@ -67,6 +67,16 @@ def object_leaves(obj):
     raise ValueError(type(obj).__name__)
 
 
+def no_implicit(T):
+    k = T[0]
+    if k == 'imp': return False
+    if k == 'exp': return no_implicit(T[2])
+    if k in ('seqof', 'setof'): return no_implicit(T[1])
+    if k in ('seq', 'set'): return all(no_implicit(ft) for _, ft in T[1])
+    if k == 'choice': return all(no_implicit(a) for a in T[1])
+    return True
+
+
 def homogeneous(T):
     """no SET OF / SEQUENCE OF whose members may carry differing tags, no empty-vs-guess ambiguity excluded here"""
     k = T[0]
@@ -91,6 +101,10 @@ def run(ctx):
                  (('seq', [('req', ('int',))]), ('rec', [('i', 5)])), (('seq', [('req', ('int',)), ('req', ('int',))]), ('rec', [('i', 1), ('i', 2)])),
                  (('seqof', ('seq', [])), ('list', [('rec', []), ('rec', [])])), (('exp', (128, 0, 3), ('seqof', ('null',))), ('list', []))]:
         cases.append(codec.Case(T, v))
+    # systematic: every kind under every EXPLICIT tagging shape; every ordered pair of differently tagged SET members
+    every = 6 if ctx.tier == 'quick' else 1
+    cases += [c for c in codec.tag_grid_cases(ctx) if no_implicit(c.T) and homogeneous(c.T)]
+    cases += codec.set_order_grid_cases(ctx, every=every, universal_only=True)
     exprs, meta = [], []
     for c in cases:
         der = I.run_encode('DER', c.obj)
@@ -100,6 +114,15 @@ def run(ctx):
         except Exception:
             continue
         variants = [('DER', der[1], 'DER'), ('DER', der[1], 'BER'), ('DER', der[1], 'CER')]
+        # "its DER encoding" is what X.690 says it is: the independent reference encoding is decoded as well when the
+        # encoder's output differs from it (that difference as such belongs to C03)
+        try:
+            ref = x690gen.der(c.T, c.v)
+        except ValueError:
+            ref = None
+        if ref is not None and ref != der[1]:
+            ctx.stats['reference_der_differs'] += 1
+            variants += [('DER', ref, 'DER'), ('DER', ref, 'BER')]
         b1 = I.run_encode('BER', c.obj, defMode=False, maxChunkSize=ctx.rng.choice([0, 3]))
         if b1[0] == 'ok': variants.append(('BER-indef', b1[1], 'BER'))
         ce = I.run_encode('CER', c.obj)
